@@ -43,7 +43,7 @@ class WorldC07(World):
               'reactions-written-in-two-orders', 'auto-and-user-ids-mixed', 'bep-transition-state', 'explicit-transition-state',
               'adsorption-reaction', 'lateral-interactions', 'unnamed-interaction', 'motz-wise-on', 'shomate-species', 'nasa9-species',
               'cti-executed', 'yaml-loaded', 'reactor-yaml', 'reactor-reused-dict', 'numpy-values', 'string-values-with-units',
-              'units-omitted', 'text-path', 'file-path', 'overwrite', 'write-after-failed-write', 'recovery-after-fault', 'write-through-symlink', 'objects-looked-at-between-writes', 'relative-name-in-case-directory', 'alloc-failure-signalled', 'alloc-failure-over-existing-file',
+              'units-omitted', 'text-path', 'file-path', 'overwrite', 'write-after-failed-write', 'recovery-after-fault', 'write-through-symlink', 'phase-reaction-ids-judged', 'objects-looked-at-between-writes', 'relative-name-in-case-directory', 'alloc-failure-signalled', 'alloc-failure-over-existing-file',
               'clock-jump-before-write', 'default-units', 'bep-section-judged', 'same-size-other-elements-after-a-write',
               'explicit-zero-barrier', 'non-ascii-name', 'write-with-partial-membership', 'nasa9-ranges-judged', 'reactor-initial-state',
               'capitalised-phase-names', 'phase-mechanism-links-judged')
@@ -1102,6 +1102,26 @@ class WorldC07(World):
                 k, A, b, Ea = 'rate', kf[0], kf[1], kf[2]
             entries.append({'equation': r._e, 'id': r._id, 'kind': k, 'A': A, 'b': b, 'Ea': Ea, 'tol': 6e-6})
         self._judge_reactions(entries, order, units, tw, a, what)
+        # the reactions a phase lists (ids, with "a to b" ranges) are exactly those that involve its species
+        md = self.md
+        for p_ in plist:
+            said = getattr(p_, '_rxns', None)
+            nm = getattr(p_, '_name', None)
+            if said is None or str(said) == 'none' or said == [] or nm is None:
+                continue
+            try:
+                listed = self._expand_ranges(said)
+            except ValueError:
+                raise Violation('phases-say-what-the-objects-say', '%s: phase %r lists reactions %r: a range across two id '
+                                'prefixes' % (what, nm, said))
+            if any(x_ in ('all', 'declared-species') for x_ in listed):
+                continue
+            mine = [e_['id'] for e_, i in zip(entries, order)
+                    if any(self._phase_of(n_) == nm for n_, _ in md['reactions'][i]['reactants'] + md['reactions'][i]['products'])]
+            if sorted(listed) != sorted(mine):
+                raise Violation('phases-say-what-the-objects-say', '%s: phase %r lists reactions %r (%r), the reactions that involve its '
+                                'species are %r' % (what, nm, said, sorted(listed), sorted(mine)))
+            self.ctx.probe('phase-reaction-ids-judged')
         try:
             bents = [{'id': b._id, 'slope': b._alpha, 'intercept': b._beta, 'direction': b._direction,
                       'cleavage': self._expand_ranges(b._clv_rxns), 'synthesis': self._expand_ranges(b._syn_rxns)}
